@@ -66,9 +66,14 @@ func symbols() *sl.Symbols {
 		sl.Op{Name: "upd2(remove fields)", Kind: "upd", Ids: []int{2}, Docs: []sl.Doc{{"vec": "_delete", "flat": "_delete", "ham": "_delete", "txt": "_delete", "s": "_delete", "tags": "_delete", "a": "_delete", "f": "_delete"}}},
 		sl.Op{Name: "upd2,5(add fields)", Kind: "upd", Ids: []int{2, 5}, Docs: []sl.Doc{doc(6), doc(7)}},
 		sl.Op{Name: "upd3(text,vec)", Kind: "upd", Ids: []int{3}, Docs: []sl.Doc{{"txt": "quick zebra", "vec": stored[7]}}},
+		// one batch that takes the indexed fields from one point and gives them to another:
+		// the number of indexed values is the same before and after, but not in between
+		sl.Op{Name: "ins7,8,9(9 bare)", Kind: "ins", Ids: []int{7, 8, 9}, Docs: []sl.Doc{doc(0), doc(1), {"note": "bare"}}},
+		sl.Op{Name: "upd8,9(8 loses its fields, 9 gains them)", Kind: "upd", Ids: []int{8, 9}, Docs: []sl.Doc{{"vec": "_delete", "flat": "_delete", "ham": "_delete", "txt": "_delete", "s": "_delete", "tags": "_delete", "a": "_delete", "f": "_delete"}, doc(2)}},
 		// the same id twice in one batch: set every indexed field, then remove them (and the reverse)
 		sl.Op{Name: "upd3,3(set then remove)", Kind: "upd", Ids: []int{3, 3}, Docs: []sl.Doc{doc(5), {"vec": "_delete", "flat": "_delete", "ham": "_delete", "txt": "_delete", "s": "_delete", "tags": "_delete", "a": "_delete", "f": "_delete"}}},
 		sl.Op{Name: "upd3,3(remove then set)", Kind: "upd", Ids: []int{3, 3}, Docs: []sl.Doc{{"vec": "_delete", "flat": "_delete", "ham": "_delete", "txt": "_delete", "s": "_delete", "tags": "_delete", "a": "_delete", "f": "_delete"}, doc(6)}},
+		sl.Op{Name: "queries(between batches)", Kind: "noop"},
 		sl.Op{Name: "del1", Kind: "del", Ids: []int{1}},
 		sl.Op{Name: "del2,3", Kind: "del", Ids: []int{2, 3}},
 		sl.Op{Name: "ins1(again)", Kind: "ins", Ids: []int{1}, Docs: []sl.Doc{doc(4)}},
@@ -80,7 +85,7 @@ func symbols() *sl.Symbols {
 	)
 }
 
-var universe = []int{1, 2, 3, 4, 5}
+var universe = []int{1, 2, 3, 4, 5, 7, 8, 9}
 
 type member struct {
 	name string
@@ -129,6 +134,22 @@ func (s *system) Apply(raw json.RawMessage) []seqx.Viol {
 	op, _ := s.syms.Get(ref.Name)
 	if strings.HasSuffix(op.Name, "!storage-fault") {
 		return s.applyFaulty(op)
+	}
+	if op.Kind == "noop" && strings.HasPrefix(op.Name, "queries") {
+		// searches between two write batches: they change no stored data but they
+		// change what the shared caches hold (a flat search scans and loads every
+		// vector, a graph search loads nodes, filters load term sets)
+		fmt.Fprintf(os.Stderr, "@@J-APPLY %s\n", op.Name)
+		for _, mb := range s.members {
+			mb.in.Search(models.Query{Property: "flat", VectorFlat: &models.SearchVectorFlatOptions{Vector: queries[0], Operator: models.OperatorNear, Limit: 3}}, nil, 0)
+			mb.in.Search(models.Query{Property: "ham", VectorFlat: &models.SearchVectorFlatOptions{Vector: hqueries[0], Operator: models.OperatorNear, Limit: 3}}, nil, 0)
+			mb.in.Search(models.Query{Property: "vec", VectorVamana: &models.SearchVectorVamanaOptions{Vector: queries[1], Operator: models.OperatorNear, SearchSize: 75, Limit: 3}}, nil, 0)
+			mb.in.Search(models.Query{Property: "txt", Text: &models.SearchTextOptions{Value: "quick fox", Operator: models.OperatorContainsAny, Limit: 3}}, nil, 0)
+			mb.in.Search(models.Query{Property: "s", String: &models.SearchStringOptions{Value: "a", Operator: models.OperatorGreaterThan}}, nil, 0)
+		}
+		fmt.Fprintf(os.Stderr, "@@J-OK %s\n", op.Name)
+		s.applied = append(s.applied, op)
+		return nil
 	}
 	exp := s.m.Apply(op)
 	tag := ""
@@ -323,6 +344,42 @@ func (s *system) Check() []seqx.Viol {
 		}
 		s.battery(mb.name, mb.in)
 	}
+	// learned index state must not depend on the cache configuration: whether a
+	// quantiser has been trained (and, for the deterministic binary one, the
+	// threshold it learned) is the same on every instance
+	type qstate struct{ name, state string }
+	var states []qstate
+	for _, mb := range s.members {
+		d, err := mb.in.Dump()
+		if err != nil {
+			continue
+		}
+		var parts []string
+		for _, b := range sl.SortedKeys(d) {
+			if !strings.HasPrefix(b, "index/vector") {
+				continue
+			}
+			if v, ok := d[b]["_binaryQuantizerThreshold"]; ok {
+				if strings.HasPrefix(b, "index/vectorFlat/") {
+					parts = append(parts, fmt.Sprintf("%s:binary-threshold=%x", b, v))
+				} else {
+					// a graph index learns from its random entry vector too: only "trained" is comparable
+					parts = append(parts, b+":binary-trained")
+				}
+			}
+			if _, ok := d[b]["_productQuantizerFlatCentroids"]; ok {
+				parts = append(parts, b+":product-trained")
+			}
+		}
+		states = append(states, qstate{mb.name, strings.Join(parts, " ")})
+	}
+	s.obs.Checks++
+	for _, st := range states[1:] {
+		if st.state != states[0].state {
+			s.obs.Fail("learned-index-state-differs-between-cache-configurations", "%s has {%s}, %s has {%s} after the same history", states[0].name, states[0].state, st.name, st.state)
+			break
+		}
+	}
 	var out []seqx.Viol
 	for _, v := range s.obs.Viols {
 		out = append(out, seqx.Viol{Sig: v.Sig, Detail: v.Detail})
@@ -341,7 +398,7 @@ func (s *system) Close() {
 }
 
 func master(cfg *harness.Config, rep *harness.Report) {
-	rep.Rule = "every write history up to the depth over the union of the point / filter / flat / text / graph write alphabets on a nine-index schema (without quantiser, with a learned binary quantiser, with a product quantiser trained at 3 points: each instance learns its own centroids and is compared with its own read-back reference), executed in lock-step on five instances: bbolt with unlimited, 1-byte and disabled shared cache, bbolt closed and reopened with a fresh cache manager after every batch, and memstore (successful batches only). After every batch every instance answers the whole battery (reads by id, select-all, raw point store, ~100 filter queries, exact flat k-NN on two indexes, text tf-idf, graph search safety + exact regimes, graph well-formedness) and must equal the reference model, hence each other; on the reopened instance the bucket dump before close, after reopen and after the queries must be identical"
+	rep.Rule = "every write history up to the depth over the union of the point / filter / flat / text / graph write alphabets on a nine-index schema (without quantiser, with a learned binary quantiser, with a product quantiser trained at 3 points: each instance learns its own centroids and is compared with its own read-back reference), executed in lock-step on five instances: bbolt with unlimited, 1-byte and disabled shared cache, bbolt closed and reopened with a fresh cache manager after every batch, and memstore (successful batches only). After every batch every instance answers the whole battery (reads by id, select-all, raw point store, ~100 filter queries, exact flat k-NN on two indexes, text tf-idf, graph search safety + exact regimes, graph well-formedness) and must equal the reference model, hence each other; whether a quantiser has been trained (and the binary quantiser's learned threshold) must be the same on all instances; a `queries` step between batches warms the caches inside a history; on the reopened instance the bucket dump before close, after reopen and after the queries must be identical"
 	rep.Assumptions = []string{"approximate graph answers outside the exact regimes are not compared across instances (entry vector and reuse order are random)", "bbolt commit atomicity and fsync are trusted"}
 	p := pool.New(pool.Options{CPUsPerWorker: 2, JobTimeout: 120 * time.Second})
 	syms := symbols()
